@@ -27,6 +27,9 @@ struct Judge {
         monitor_engine(ex.run, v, res);
         if (ids_only) monitor_ids_only(ex.run, v, res); else monitor_all(ex.run, v, res);
         if (count_shape) res.hash(trace_shape(ex.run));
+        if (res.samples.size() < 2 && ex.world->h.ops.size() < 40)
+            res.sample("{\"scenario\": " + vu::jesc(sc.describe().substr(0, 1200)) + ", \"observed\": {\"connections\": " + std::to_string(ex.world->h.conns.size()) + ", \"client_packets\": " +
+                       std::to_string(ex.world->h.cpkts.size()) + ", \"broker_packets\": " + std::to_string(ex.world->h.bpkts.size()) + ", \"operations\": " + std::to_string(ex.world->h.ops.size()) + "}}");
         res.count("connections", ex.world->h.conns.size());
         res.count("client_packets", ex.world->h.cpkts.size());
         res.count("broker_packets", ex.world->h.bpkts.size());
@@ -247,7 +250,7 @@ void run_mix(Judge& j, const Knobs& k, const std::string& family, uint64_t n) {
         vu::set_case(sc.family + " seed=" + std::to_string(sc.seed) + " index=" + std::to_string(i));
         auto ex = execute(sc);
         j.judge(sc, *ex);
-        if (j.res.samples.size() < 2) j.res.sample(vu::jesc(sc.describe().substr(0, 1500)));
+
     }
 }
 
@@ -745,11 +748,11 @@ Sig chunk_signature(const Execution& ex) {
     return s;
 }
 
-void run_c19(Judge& j, uint64_t n) {
+void run_c19(Judge& j, uint64_t n, int64_t only = -1) {
     const FamilyCtx& ctx = j.ctx;
     static const uint8_t types[] = {ref::CONNACK, ref::PUBLISH, ref::PUBACK, ref::PUBREC, ref::PUBREL, ref::PUBCOMP, ref::SUBACK, ref::UNSUBACK, ref::DISCONNECT, ref::AUTH};
     for (uint64_t i = 0; i < n; ++i) {
-        if (int(i % ctx.nshards) != ctx.shard) continue;
+        if (only >= 0 ? (int64_t)i != only : int(i % ctx.nshards) != ctx.shard) continue;
         vu::Rng rng(ctx.seed * 2750159 + i * 193 + 17);
         ref::Gen g(rng); g.max_str = 30;
         Scenario base; base.family = "c19-hostile"; base.seed = ctx.seed; base.index = i;
@@ -807,6 +810,7 @@ void run_c19(Judge& j, uint64_t n) {
             sc.net.latency_min = sc.net.latency_max = 200 * US;
             vu::set_case(sc.family + " index=" + std::to_string(i) + " chunking=" + std::to_string(c) + " hostile=" + vu::hex(hostile, 80));
             auto ex = execute(sc);
+            if (only >= 0) printf("===== chunking %d\n%s\n%s\n", c, sc.describe().c_str(), ex->world->h.dump(4000).c_str());
             bool ok = j.judge(sc, *ex, c == 0);
             j.res.count("hostile_runs");
             if (!ok) continue;
@@ -839,6 +843,7 @@ int run_families(const FamilyCtx& ctx, vu::Result& res) {
     Judge j{ctx, res};
     const std::string& P = ctx.prop;
     bool T = ctx.thorough;
+    if (ctx.args.has("replay-c19")) { run_c19(j, 1000000, ctx.args.num("replay-c19")); for (auto& v : res.violations) printf("VIOLATION %s %s\n", v.key.c_str(), v.what.c_str()); return 0; }
     if (ctx.args.has("replay-mix")) {
         // re-run one generated scenario and print its history: --replay-mix <family> --index N
         std::string fam = ctx.args.str("replay-mix");
